@@ -851,9 +851,9 @@ theorem sinkKey_key (p : Plan) (tr : TRow) : (sinkKey p tr).key = rowKey p tr.2 
 def NoSplit (p : Plan) (fl : List TRow) : Prop :=
   ∀ tr ∈ fl, ∀ tr' ∈ fl, (sinkKey p tr).zero = (sinkKey p tr').zero
 
-theorem foldl_upsert_const {ι : Type} (key : ι → Key) (g : ι → List St) (es : List ι) :
+theorem foldl_upsert_const {ι : Type} (key : ι → Key) (g : ι → Option (List St) → List St) (es : List ι) :
     ∀ (acc : AList Key), (es.map key).Nodup → (∀ e ∈ es, key e ∉ acc.keys) →
-      es.foldl (fun acc e => acc.upsert (key e) fun _ => g e) acc = acc ++ es.map fun e => (key e, g e) := by
+      es.foldl (fun acc e => acc.upsert (key e) (g e)) acc = acc ++ es.map fun e => (key e, g e none) := by
   induction es with
   | nil => intro acc _ _; simp
   | cons e es ih =>
@@ -870,7 +870,7 @@ theorem foldl_upsert_const {ι : Type} (key : ι → Key) (g : ι → List St) (
       intro heq
       exact hn.1 (heq ▸ List.mem_map.mpr ⟨e', he', rfl⟩)
 
-theorem intoPartial_noSplit (p : Plan) (zl : Bool) (fl : List TRow) (h : NoSplit p fl) :
+theorem intoPartial_noSplit (p : Plan) (zl : Option Bool) (fl : List TRow) (h : NoSplit p fl) :
     intoPartial zl (sinkAgg p fl) = (sinkAgg p fl).map fun e => (e.1.key, e.2.map snapshot) := by
   have hz : ∀ e ∈ sinkAgg p fl, ∀ e' ∈ sinkAgg p fl, e.1.zero = e'.1.zero := by
     intro e he e' he'
@@ -891,41 +891,50 @@ theorem intoPartial_noSplit (p : Plan) (zl : Bool) (fl : List TRow) (h : NoSplit
       simp_all
     simp only [List.Nodup, List.pairwise_map]
     exact h1
-  have hord : ∀ t : AList SinkKey, (∀ e ∈ t, ∀ e' ∈ t, e.1.zero = e'.1.zero) →
-      t.filter (fun e => e.1.zero != zl) ++ t.filter (fun e => e.1.zero == zl) = t := by
-    intro t ht
-    cases t with
-    | nil => rfl
-    | cons e0 t =>
-      by_cases hzz : e0.1.zero = zl
-      · have h1 : (e0 :: t).filter (fun e => e.1.zero != zl) = [] := by
-          rw [List.filter_eq_nil_iff]
-          intro e he
-          have := ht e he e0 (by simp)
-          simp [this, hzz]
-        have h2 : (e0 :: t).filter (fun e => e.1.zero == zl) = e0 :: t := by
-          rw [List.filter_eq_self]
-          intro e he
-          have := ht e he e0 (by simp)
-          simp [this, hzz]
-        rw [h1, h2]; rfl
-      · have h1 : (e0 :: t).filter (fun e => e.1.zero != zl) = e0 :: t := by
-          rw [List.filter_eq_self]
-          intro e he
-          have := ht e he e0 (by simp)
-          simp [this, hzz]
-        have h2 : (e0 :: t).filter (fun e => e.1.zero == zl) = [] := by
-          rw [List.filter_eq_nil_iff]
-          intro e he
-          have := ht e he e0 (by simp)
-          simp [this, hzz]
-        rw [h1, h2]; simp
-  unfold intoPartial
-  simp only []
-  rw [hord _ hz]
-  have := foldl_upsert_const (fun e : SinkKey × List St => e.1.key) (fun e => e.2.map snapshot)
-    (sinkAgg p fl) [] hnd (by simp [AList.keys])
-  simpa using this
+  cases zl with
+  | none =>
+    unfold intoPartial
+    simp only []
+    have := foldl_upsert_const (fun e : SinkKey × List St => e.1.key)
+      (fun e o => mergeOpt o (e.2.map snapshot))
+      (sinkAgg p fl) [] hnd (by simp [AList.keys])
+    simpa [mergeOpt] using this
+  | some zl =>
+    have hord : ∀ t : AList SinkKey, (∀ e ∈ t, ∀ e' ∈ t, e.1.zero = e'.1.zero) →
+        t.filter (fun e => e.1.zero != zl) ++ t.filter (fun e => e.1.zero == zl) = t := by
+      intro t ht
+      cases t with
+      | nil => rfl
+      | cons e0 t =>
+        by_cases hzz : e0.1.zero = zl
+        · have h1 : (e0 :: t).filter (fun e => e.1.zero != zl) = [] := by
+            rw [List.filter_eq_nil_iff]
+            intro e he
+            have := ht e he e0 (by simp)
+            simp [this, hzz]
+          have h2 : (e0 :: t).filter (fun e => e.1.zero == zl) = e0 :: t := by
+            rw [List.filter_eq_self]
+            intro e he
+            have := ht e he e0 (by simp)
+            simp [this, hzz]
+          rw [h1, h2]; rfl
+        · have h1 : (e0 :: t).filter (fun e => e.1.zero != zl) = e0 :: t := by
+            rw [List.filter_eq_self]
+            intro e he
+            have := ht e he e0 (by simp)
+            simp [this, hzz]
+          have h2 : (e0 :: t).filter (fun e => e.1.zero == zl) = [] := by
+            rw [List.filter_eq_nil_iff]
+            intro e he
+            have := ht e he e0 (by simp)
+            simp [this, hzz]
+          rw [h1, h2]; simp
+    unfold intoPartial
+    simp only []
+    rw [hord _ hz]
+    have := foldl_upsert_const (fun e : SinkKey × List St => e.1.key) (fun e _ => e.2.map snapshot)
+      (sinkAgg p fl) [] hnd (by simp [AList.keys])
+    simpa using this
 
 /-! ### state vectors -/
 
@@ -1007,7 +1016,7 @@ theorem map_zipIdx_const {α β : Type} (l : List α) (F : α → Nat → β) (G
     simp only [List.zipIdx_cons, List.map_cons]
     rw [h a (by simp), ih (fun b hb => h b (by simp [hb]))]
 
-theorem partials_eq (p : Plan) (zl : Nat → Bool) (flows : List (List TRow)) (h : ∀ fl ∈ flows, NoSplit p fl) :
+theorem partials_eq (p : Plan) (zl : Nat → Option Bool) (flows : List (List TRow)) (h : ∀ fl ∈ flows, NoSplit p fl) :
     (flows.zipIdx.map fun x => intoPartial (zl x.2) (sinkAgg p x.1)).flatten =
       (pairsOf p flows).map (entryOf p) := by
   rw [map_zipIdx_const flows (fun fl i => intoPartial (zl i) (sinkAgg p fl))
@@ -1026,7 +1035,7 @@ theorem partials_eq (p : Plan) (zl : Nat → Bool) (flows : List (List TRow)) (h
   rw [hs, List.map_map]
   rfl
 
-theorem runFlows_get (p : Plan) (zl : Nat → Bool) (flows : List (List TRow)) (h : ∀ fl ∈ flows, NoSplit p fl)
+theorem runFlows_get (p : Plan) (zl : Nat → Option Bool) (flows : List (List TRow)) (h : ∀ fl ∈ flows, NoSplit p fl)
     (fk : Key) :
     (runFlows p zl flows).get fk =
       chain (fun pr => mstep (entryOf p pr)) none
@@ -1187,7 +1196,7 @@ theorem pairs_rows_perm (p : Plan) (fk : Key) (flows : List (List TRow)) :
 /-- **Main table-level result.** For flows that each take one path through the sink and whose
 MIN/MAX cells are never blank, the coordinator's entry for a final key is present exactly when
 some row has that key, and its reported cells are the reference folds over those rows. -/
-theorem runFlows_spec (p : Plan) (zl : Nat → Bool) (flows : List (List TRow))
+theorem runFlows_spec (p : Plan) (zl : Nat → Option Bool) (flows : List (List TRow))
     (hns : ∀ fl ∈ flows, NoSplit p fl) (hg : ∀ fl ∈ flows, GoodFlow p fl) (fk : Key) :
     match (runFlows p zl flows).get fk with
     | none => ((flows.flatten.map (·.2)).filter fun r => finalKey p r = fk) = []
@@ -1234,7 +1243,7 @@ def allRows (flows : List (List TRow)) : List Row := flows.flatten.map (·.2)
 def groupRows (p : Plan) (flows : List (List TRow)) (fk : Key) : List Row :=
   (allRows flows).filter fun r => finalKey p r = fk
 
-theorem reportAt_spec (p : Plan) (zl : Nat → Bool) (flows : List (List TRow))
+theorem reportAt_spec (p : Plan) (zl : Nat → Option Bool) (flows : List (List TRow))
     (hns : ∀ fl ∈ flows, NoSplit p fl) (hg : ∀ fl ∈ flows, GoodFlow p fl) (fk : Key) :
     reportAt p (runFlows p zl flows) fk =
       if retained p fk && !(groupRows p flows fk).isEmpty then
